@@ -562,3 +562,90 @@ def _optimize_gating(model, extra):
     if res != cur + ["postprocess"]:
         problems.append({"result": str(res), "want": str(cur + ["postprocess"])})
     return {"confirmed": bool(problems), "flags": flags, "problems": problems[:4]}
+
+
+# ---------------------------------------------------------------------------------------------
+# C07 names.  The solver's model fixes arity/counter; string *contents* are abstract in the model, so the
+# known-name set is rebuilt natively in the adversarial shape the obligation is about (similar, similar1, ...)
+def _names_state(model, similar):
+    from ngo.utils.ast import Predicate
+
+    ar = int(model.get("arity", 1))
+    ar = max(0, min(ar, 5))
+    known = {Predicate(similar, ar)} | {Predicate(similar + str(i), ar) for i in range(1, 4)} | {Predicate("__aux_" + str(i), ar) for i in range(0, 4)}
+    return ar, known
+
+
+def _check_fresh(un, before, res, ar):
+    problems = []
+    if res in before:
+        problems.append(f"{res} was already known")
+    if res.arity != ar:
+        problems.append(f"arity {res.arity} != {ar}")
+    if un.predicates != before | {res}:
+        problems.append("known set is not old + {result}")
+    return problems
+
+
+@mirror("new_predicate")
+def _new_predicate(model, extra):
+    from ngo.utils.globals import UniqueNames
+
+    ar, known = _names_state(model, "p")
+    un = UniqueNames([], [])
+    un.predicates = set(known)
+    problems = []
+    r1 = un.new_predicate("p", ar)
+    problems += _check_fresh(un, set(known), r1, ar)
+    mid = set(un.predicates)
+    r2 = un.new_predicate("p", ar)
+    problems += _check_fresh(un, mid, r2, ar)
+    if not (r1.name.startswith("p") and r2.name.startswith("p")):
+        problems.append("name does not extend the requested one")
+    return {"confirmed": bool(problems), "known": sorted(map(str, known)), "results": [str(r1), str(r2)], "problems": problems}
+
+
+@mirror("new_auxpredicate")
+def _new_auxpredicate(model, extra):
+    from ngo.utils.globals import UniqueNames
+
+    ar, known = _names_state(model, "p")
+    problems = []
+    for start in (0, max(0, min(int(model.get("auxcounter", 0)), 3))):
+        un = UniqueNames([], [])
+        un.predicates = set(known)
+        un.auxcounter = start
+        r1 = un.new_auxpredicate(ar)
+        problems += _check_fresh(un, set(known), r1, ar)
+        mid = set(un.predicates)
+        c1 = un.auxcounter
+        r2 = un.new_auxpredicate(ar)
+        problems += _check_fresh(un, mid, r2, ar)
+        if not (c1 > start and un.auxcounter > c1):
+            problems.append("counter did not grow")
+    return {"confirmed": bool(problems), "known": sorted(map(str, known)), "problems": problems}
+
+
+@mirror("make_unique")
+def _make_unique(model, extra):
+    from ngo.utils.globals import UniqueVariables
+
+    problems = []
+    for name in ("X", "AUX", "_"):
+        rule = A.Rule(LOC, A.Literal(LOC, A.Sign.NoSign, A.BooleanConstant(False)), [])
+        uv = UniqueVariables(rule)
+        uv._allvars = [A.Variable(LOC, "X"), A.Variable(LOC, "AUX"), A.Variable(LOC, "AUX0"), A.Variable(LOC, "X0"), A.Variable(LOC, "X1")]  # pylint: disable=protected-access
+        before = list(uv._allvars)  # pylint: disable=protected-access
+        r1 = uv.make_unique(A.Variable(LOC, name))
+        r2 = uv.make_unique(A.Variable(LOC, name))
+        if name == "_":
+            if r1.name != "_" or uv._allvars != before:  # pylint: disable=protected-access
+                problems.append("anonymous variable changed / recorded")
+            continue
+        if r1 in before or r2 in before or r1 == r2:
+            problems.append(f"{name}: results {r1}, {r2} clash with known variables {list(map(str, before))}")
+        if uv._allvars != before + [r1, r2]:  # pylint: disable=protected-access
+            problems.append(f"{name}: results not recorded in order")
+        if r1.ast_type != A.ASTType.Variable:
+            problems.append("result is not a Variable")
+    return {"confirmed": bool(problems), "problems": problems}
